@@ -1413,7 +1413,17 @@ func qDebugPanic(r any) {
 	}
 }
 
-func qInstant(n int64) time.Time { return time.Unix(0, n).UTC() }
+// qInstant builds the range bounds. Rows carry UTC timestamps; the bounds deliberately use another representation of
+// the same instants (a fixed-offset zone for even values), because range selection is about instants, not about
+// time.Time values (== on time.Time compares wall/ext/*Location).
+var qZone = time.FixedZone("q+1", 3600)
+
+func qInstant(n int64) time.Time {
+	if n%2 == 0 {
+		return time.Unix(0, n).In(qZone)
+	}
+	return time.Unix(0, n).UTC()
+}
 
 // qObsReport executes a report datasource and prints the canonical observation.
 func qObsReport(ds report.DataSource, b *qBuilder, mask bool, from, to int64) (obs string) {
